@@ -206,7 +206,7 @@ static size_t genWidth(vh::Rng &rng, size_t round, size_t lo, size_t hi) {
 static const char *PRIMS[] = {
 	"bitcount", "decoder", "encoder", "encdec", "pe", "petree1", "petree2", "petree3", "clz", "therm", "thermw", "thermback", "thermrt",
 	"grayenc", "graydec", "grayrt", "minu", "maxu", "mins", "maxs", "bpt", "divu", "divs", "csa", "csadd", "addc",
-	"ctr_end", "ctr_w", "ctr_uend", "ctr_auto", "updown", "crc", "crcwk", "crcgen", "bad",
+	"ctr_end", "ctr_w", "ctr_uend", "ctr_auto", "updown", "crc", "crcwk", "crcgen", "petreereg", "bad",
 };
 static const size_t NPRIMS = sizeof(PRIMS) / sizeof(PRIMS[0]);
 
@@ -226,7 +226,7 @@ int main(int argc, char **argv) {
 		std::string prim = PRIMS[pi];
 		size_t round = rounds[pi]++;
 		size_t bpsBase = 0;
-		if (prim.rfind("petree", 0) == 0) { bpsBase = prim[6] - '0'; prim = "petree"; }
+		if (prim.size() == 7 && prim.rfind("petree", 0) == 0) { bpsBase = prim[6] - '0'; prim = "petree"; }
 		size_t small = std::min<size_t>(maxw, 10);  // primitives whose output has 2^w bits
 		o << "case " << id << ' ' << prim;
 		if (prim == "bitcount") {
@@ -252,6 +252,36 @@ int main(int argc, char **argv) {
 			size_t stepBits = 1ull << bps;
 			o << ' ' << n << ' ' << bps << ' ' << utils::nextPow2((n + stepBits - 1) / stepBits) << '\n';
 			runComb(rng, [&](Ctx &c) { UInt a = c.in(n); auto r = scl::priorityEncoderTree(a, false, bps); c.out(*r); c.out(valid(r)); });
+		} else if (prim == "petreereg") {
+			// registerStep = true: one register per tree level; a stream of inputs, one per clock cycle
+			size_t n = genWidth(rng, round, 1, maxw); size_t bps = 1 + (round % 3);
+			size_t stepBits = 1ull << bps;
+			o << ' ' << n << ' ' << bps << ' ' << utils::nextPow2((n + stepBits - 1) / stepBits) << '\n';
+			try {
+				DesignScope design;
+				Clock clk({ .absoluteFrequency = 100'000'000 });
+				ClockScope cs(clk);
+				auto pa = pinIn(BitWidth(n)).setName("a"); UInt a = pa;
+				auto r = scl::priorityEncoderTree(a, true, bps);
+				auto ov = pinOut(*r).setName("r"); auto ovv = pinOut(valid(r)).setName("v");
+				vh::Sim s(design.getCircuit());
+				hlim::ClockRational T(1, 100'000'000);
+				s.set(pa.node(), std::string(n, '0')); s.eval();
+				s.sim.advance(hlim::ClockRational(1, 400'000'000)); s.sim.advance(T);
+				for (size_t t = 0; t < 48; t++) {
+					std::string v(n, '0');
+					switch (rng.below(6)) {
+						case 0: break;
+						case 1: v[0] = '1'; break;                        // only the top bit (last, possibly short, chunk)
+						case 2: v[n - 1] = '1'; break;                    // only bit 0
+						case 3: v[rng.below(n)] = '1'; break;
+						default: v = genBits(rng, n); break;
+					}
+					s.set(pa.node(), v); s.eval();
+					o << "s " << v << " > " << s.getPin(ov.node()) << ' ' << s.getPin(ovv.node()) << '\n';
+					s.sim.advance(T);
+				}
+			} catch (const std::exception &e) { o << "err " << errClass(e) << '\n'; }
 		} else if (prim == "clz") {
 			size_t n = genWidth(rng, round, 0, maxw); o << ' ' << n << '\n';
 			runComb(rng, [&](Ctx &c) { UInt a = c.in(n); c.out(scl::countLeadingZeros((BVec) a)); });
